@@ -104,7 +104,14 @@ class Loops:
         con = fr.contract
         if con is None:
             return None
-        return con.loops.get(ordinal)
+        cands = con.loops.get(ordinal)
+        if not cands:
+            return None
+        for inv in cands:
+            names = [a.arg for a in inv.args.args if a.arg != "old"]
+            if all(n in fr.env or n in fr.ghost or n.startswith("_i") or n.startswith("_seq") for n in names):
+                return inv
+        return cands[0]
 
     # ------------------------------------------------------------------ for
     def for_loop(self, it, st: ast.For, fr: Frame):
